@@ -318,7 +318,8 @@ GEN_MARK = '"@@GEN@@"'
 def tlc_gen(ctx, spec_dir, module, cfg, simulate=None, depth=None, workers=4, timeout=600, seed=None,
             xmx="4g", cfg_text=None, extra=(), env=None, limit=None):
     """Run a generator spec.  The spec prints   PrintT(<<"@@GEN@@", ToJson(x)>>)  ; we collect x.
-    simulate=(num) uses -simulate num=..., else BFS (exhaustive within the cfg's CONSTRAINT)."""
+    simulate=N: random behaviours (-simulate); TLC is stopped as soon as N distinct items were read
+    (its own num= limit is only checked now and then).  Otherwise BFS (exhaustive within the cfg)."""
     ex = list(extra)
     if simulate:
         ex += ["-simulate", "num=%d" % simulate]
@@ -326,37 +327,57 @@ def tlc_gen(ctx, spec_dir, module, cfg, simulate=None, depth=None, workers=4, ti
             ex += ["-depth", str(depth)]
         if seed is not None:
             ex += ["-seed", str(seed)]
-    rc, out, err, wall = tlc_raw(ctx, spec_dir, module, cfg, workers, ex, timeout=timeout, xmx=xmx,
-                                 cfg_text=cfg_text, env=env)
-    items = []
-    seen = set()
-    for line in out.splitlines():
-        if line.startswith("<<" + GEN_MARK):
-            # <<"@@GEN@@", "....json...">>
-            body = line[len("<<" + GEN_MARK) + 2:]
-            if body.endswith(">>"):
-                body = body[:-2]
-            try:
-                s = json.loads(body)       # the TLA+ string literal -> python str
-                if s in seen:
-                    continue
-                seen.add(s)
-                items.append(json.loads(s))
-            except Exception as e:  # malformed => internal error
-                raise InternalError("cannot parse generator line: %r (%s)" % (line[:300], e))
-            if limit and len(items) >= limit:
-                break
-    bad = ("Error:" in out and "Simulation" not in out) or rc not in (0,)
-    if simulate:
-        # simulation run ends with rc 0 when num traces are generated
-        bad = rc != 0
-    if bad and not items:
-        raise InternalError("TLC generator %s/%s failed (rc=%d):\n%s\n%s" % (module, cfg, rc, out[-5000:], err[-2000:]))
-    if rc != 0:
-        raise InternalError("TLC generator %s/%s failed (rc=%d):\n%s\n%s" % (module, cfg, rc, out[-5000:], err[-2000:]))
+        limit = limit or simulate
+    d = _prep_spec_dir(ctx, spec_dir)
+    if cfg_text is not None:
+        with open(os.path.join(d, cfg), "w") as f:
+            f.write(cfg_text)
+    cmd = _java(xmx) + ["-workers", str(1 if simulate else workers), "-metadir", ctx.metadir(), "-config", cfg] + ex + [module + ".tla"]
+    e = dict(os.environ)
+    if env:
+        e.update(env)
+    t0 = time.time()
+    p = subprocess.Popen(cmd, stdout=subprocess.PIPE, stderr=subprocess.DEVNULL, cwd=d, env=e)
+    items, seen, tail = [], set(), []
+    stopped = False
+    prefix = "<<" + GEN_MARK
+    try:
+        for raw in p.stdout:
+            line = raw.decode("utf-8", "replace").rstrip("\n")
+            if line.startswith(prefix):
+                body = line[len(prefix) + 2:]
+                if body.endswith(">>"):
+                    body = body[:-2]
+                try:
+                    sj = json.loads(body)
+                    if sj in seen:
+                        continue
+                    seen.add(sj)
+                    items.append(json.loads(sj))
+                except Exception as exn:
+                    raise InternalError("cannot parse generator line: %r (%s)" % (line[:300], exn))
+                if limit and len(items) >= limit:
+                    stopped = True
+                    break
+            else:
+                tail.append(line)
+                if len(tail) > 200:
+                    tail = tail[-100:]
+            if time.time() - t0 > timeout:
+                raise InternalError("TLC generator %s/%s timed out" % (module, cfg))
+    finally:
+        if stopped or p.poll() is None:
+            p.kill()
+        p.wait()
+    out = "\n".join(tail)
+    if not stopped and p.returncode != 0:
+        raise InternalError("TLC generator %s/%s failed (rc=%s):\n%s" % (module, cfg, p.returncode, out[-5000:]))
+    if not items:
+        raise InternalError("TLC generator %s/%s produced nothing:\n%s" % (module, cfg, out[-3000:]))
     m = _RE_STATES.findall(out)
-    stats = {"module": module, "cfg": cfg, "wall_s": round(wall, 2), "items": len(items),
-             "generated": int(m[-1][0]) if m else 0, "distinct": int(m[-1][1]) if m else 0}
+    stats = {"module": module, "cfg": cfg, "wall_s": round(time.time() - t0, 2), "items": len(items),
+             "generated": int(m[-1][0]) if m else 0, "distinct": int(m[-1][1]) if m else 0,
+             "mode": "simulate" if simulate else "bfs"}
     return items, stats
 
 
@@ -487,6 +508,10 @@ def main(run_fn, prop, level="model_checking"):
         rc = ctx.finish()
     except InternalError as e:
         log("INTERNAL ERROR in check %s: %s" % (prop, e))
+        sys.exit(2)
+    except Exception:
+        import traceback
+        log("INTERNAL ERROR (unexpected exception) in check %s:\n%s" % (prop, traceback.format_exc()))
         sys.exit(2)
     sys.exit(rc)
 
